@@ -313,6 +313,23 @@ pub fn placement_near_mate() -> impl Strategy<Value = PlacementRecipe> + Clone {
         })
 }
 
+/// G3 heavy mating net: a bare or nearly bare king against three to five heavy and minor pieces -
+/// mates of different lengths at sibling nodes, many checks (check extensions)
+pub fn placement_heavy_net() -> impl Strategy<Value = PlacementRecipe> + Clone {
+    (any::<bool>(), 0u8..64, 0u8..64, proptest::collection::vec((prop_oneof![3 => Just(4u8), 3 => Just(3u8), 2 => Just(2u8), 1 => Just(1u8)], 0u8..64), 3..6), proptest::collection::vec((0u8..4, 0u8..64), 0..2), prop_oneof![3 => Just(true), 1 => Just(false)])
+        .prop_map(|(white_attacks, dk, ak, attackers, defenders, attacker_to_move)| {
+            let mut men: Vec<(u8, bool, u8)> = vec![];
+            for (k, s) in attackers {
+                men.push((k, white_attacks, s));
+            }
+            for (k, s) in defenders {
+                men.push((k, !white_attacks, s));
+            }
+            let (wk, bk) = if white_attacks { (ak, dk) } else { (dk, ak) };
+            PlacementRecipe { wk, bk, men, white_to_move: white_attacks == attacker_to_move, rights: 0, ep: 0 }
+        })
+}
+
 pub fn recipe_json(r: &PlacementRecipe) -> Value {
     match build_placement(r) {
         Some(p) => json!({"fen": p.fen()}),
